@@ -107,11 +107,23 @@ func genCase(r *rand.Rand, size int) scase {
 		cli = append(cli, "s"+msg(), "c")
 		srv = append(srv, "R")
 		locals(3)
-		wait := r.Intn(12) == 0 && shape == "unaryS"
-		if wait {
+		wait := r.Intn(12) == 0
+		if wait && shape == "unaryS" {
 			srv = append(srv, "W")
 			c.Fin = "OK"
 			abortTail(r, &cli)
+			break
+		}
+		if wait {
+			// Invoke with the caller's context ending while the handler is parked: RecvMsg fails as such and the
+			// grpc.Header call option is filled from Header() after the abort
+			srv = append(srv, "W")
+			c.Fin = "OK"
+			a := "x"
+			if r.Intn(6) == 0 {
+				a = "d"
+			}
+			cli = append(cli, a, "r", "h")
 			break
 		}
 		if r.Intn(2) == 0 {
@@ -270,6 +282,9 @@ func genCase(r *rand.Rand, size int) scase {
 	c.Srv = joinOps(srv)
 	c.Cli = joinOps(cli)
 	c.Ctx = genCtx(r)
+	if !c.Reuse && r.Intn(4) == 0 {
+		c.Pass = passModes[r.Intn(len(passModes))]
+	}
 	if c.Out == "-" && r.Intn(3) == 0 && !strings.ContainsAny(c.Cli, "xd") {
 		c.Out = "~" // no outgoing metadata at all (a handler passing its own context on)
 	}
@@ -311,10 +326,27 @@ func tail(r *rand.Rand, cli *[]string, noTrailer bool) {
 }
 
 func abortTail(r *rand.Rand, cli *[]string) {
+	a := "x"
 	if r.Intn(6) == 0 {
-		*cli = append(*cli, "d", "r")
-	} else {
-		*cli = append(*cli, "x", "r")
+		a = "d"
+	}
+	// after its own abort the client reads the terminal RecvMsg and, often, Header(): metadata the handler has only
+	// STAGED with SetHeader has not left the server (the hypothesis admits the read when no header was sent before
+	// the abort: WFScripts)
+	switch r.Intn(7) {
+	case 0:
+		*cli = append(*cli, a, "h", "r")
+	case 1:
+		*cli = append(*cli, a, "r", "h")
+	case 2:
+		*cli = append(*cli, a, "h", "r", "h")
+	case 3:
+		// ... and after the handler has unwound from the abort and returned (w): still nothing it only staged
+		*cli = append(*cli, a, "r", "w", "h")
+	case 4:
+		*cli = append(*cli, a, "w", "h", "r")
+	default:
+		*cli = append(*cli, a, "r")
 	}
 }
 
@@ -352,7 +384,40 @@ func basicCases() []scase {
 		{"bidi", "-", "R,W", "OK", "s1,x,r"},
 		{"bidi", "-", "R,R", "OK", "s1,d,r"},
 		{"bidi", "u=1+u=2", "Ha=1,R,W", "OK", "s1,x,r"},
-	}), ctxCases()...)
+		// Header() after the client's own abort, header metadata staged but not sent: nothing has left the server
+		{"bidi", "-", "Ha=1,R", "OK", "x,h,r"},
+		{"bidi", "-", "Ha=1,R,W", "OK", "s1,x,r,h"},
+		{"bidi", "-", "R", "OK", "x,h,r,h"},
+		{"bidi", "-", "Ha=1,R", "OK", "x,r,w,h"}, // the handler has returned from the abort by the time Header() is read
+		{"sstream", "-", "R,Ha=1,W", "OK", "s0,c,x,w,h,r"},
+		{"cstream", "-", "Ha=1,R,R", "OK", "s1,x,w,h,r"},
+		{"cstream", "-", "Ha=1+b=2,R,R", "OK", "s1,x,h,r"},
+		{"cstream", "-", "Ha=1,R", "OK", "d,h,r"},
+		{"sstream", "-", "R,Ha=1,W", "OK", "s0,c,x,h,r"},
+		{"unaryS", "-", "R,Ha=1,Tb=1,W", "OK", "s1,c,x,r,h"},
+		{"unary", "-", "R,Ha=1,W", "OK", "s1,c,x,r,h"},
+		{"unary", "-", "R,W", "OK", "s1,c,x,r,h"},
+		{"unary", "-", "R,Ha=1,W", "OK", "s1,c,d,r,h"},
+	}), append(passCases(), ctxCases()...)...)
+}
+
+// passCases: every call shape with a party whose message type is not the other side's (pass.go), messages in
+// both directions, payload 0 included (an int32 zero is not encoded at all).
+func passCases() []scase {
+	scripts := [][4]string{
+		{"unary", "R,M3", "OK", "s2,c,r,h,t"},
+		{"unaryS", "R,M3", "OK", "s2,c,r,r,t"},
+		{"sstream", "R,M0,M4", "OK", "s2,c,r,r,r,t"},
+		{"cstream", "R,R,R,M5", "OK", "s1,s2,c,r,r,t"},
+		{"bidi", "R,M1,R,M2", "OK", "s1,r,s0,r,c,r,t"},
+	}
+	var out []scase
+	for _, mode := range passModes {
+		for _, s := range scripts {
+			out = append(out, scase{Shape: s[0], Out: "-", Srv: s[1], Fin: s[2], Cli: s[3], Pass: mode})
+		}
+	}
+	return out
 }
 
 // ctxCases: every call shape on the context kinds a caller can have (incoming metadata only, outgoing only, both,
